@@ -274,6 +274,8 @@ def label_events(events, opkind):
                 lab = "AnnLockEx" if detail == "fd:rw" else "AnnTouchLock"
             elif base == "log.lock":
                 lab = "LogLockEx" if detail == "fd:rw" else "LogTouchLock"
+                if opkind == "Open":  # _init_log creates log.csv under the log lock
+                    lab = "Init" + lab
             elif base == "log.tmp":
                 lab = {"open": "OpenLogTmp", "close": "CloseLogTmp", "os.rename": "RenameLog"}.get(kind, lab)
             elif base == "log.csv":
